@@ -367,8 +367,8 @@ def float_counterexample(hyps, goal, tries=None):
             elif t < 16:
                 env[name] = round(rng.uniform(0.2, 1.5) * rng.choice((1, 1, -1)), 3)
             else:
-                # magnitudes spread over many decades: step controllers compare fractional powers of ratios with fixed thresholds, which values of order one never cross
-                env[name] = float("%.3g" % (10.0 ** rng.uniform(-6, 2))) * rng.choice((1, 1, 1, 1, 1, 1, 1, -1))
+                # magnitudes spread over many decades below ~3 (larger values would let float rounding of high-degree terms exceed the failure margin): step controllers compare fractional powers of ratios with fixed thresholds, which values of order one never cross
+                env[name] = float("%.3g" % (10.0 ** rng.uniform(-6, 0.5))) * rng.choice((1, 1, 1, 1, 1, 1, 1, -1))
         memo = {}
         try:
             if not all(_holds(h, env, memo, -1e-7 if h.op in ("le0", "lt0") else 1e-12) for h in hyps):
